@@ -890,6 +890,19 @@ fn model_cases(cs: &mut Cases, _a: &Args) {
         "=IFERROR(A1:A2*10,1)", "=ISNUMBER(A1*10)", "=A1*10&\"\"", "=A1:A2*10&\"\"", "=A1*10=A1*10", "=A1:A2*10>0", "=LEN(A1*10)",
         "=COUNT(A1*10)", "=COUNTA(A1:A2*10)", "=@A1:A2*10", "=A1:A2", "=A1:B2*1E308", "=1/0", "=A2/B2", "={1,2}/{0,1}",
     ];
+    // the typed path (set_user_input -> parse_formatted_number -> parse_number's finiteness test, /repo 6e3cec0):
+    // plain numerals in Rust's float grammar, so that the runner needs no cast table; what A1 holds afterwards
+    let big = "9".repeat(400);
+    let typed: Vec<String> = ["1e999", "-1e999", "1E309", "1e308", "1.8e308", "1.7e308", "-1.8e308", "123", "0", "2.5", "1e5", "1.5e10", "1e-400", "-7",
+                              "12345678901234567890", "0.1", "1e0", "17e307", "18e307"].iter().map(|s| s.to_string()).chain([big.clone(), format!("-{big}"), format!("{}.5", &big[..310]), "1".to_string() + &"0".repeat(308), "1".to_string() + &"0".repeat(309)]).collect();
+    for t in &typed {
+        let r = catch_unwind(AssertUnwindSafe(|| {
+            let mut m = Model::new_empty("m", "en", "UTC", "en").ok()?;
+            m.set_user_input(0, 1, 1, t.clone()).ok()?;
+            Some(dump::cell_obs(&m, 0, 1, 1))
+        }));
+        if let Ok(Some(obs)) = r { cs.case(&format!("ty {}", wire(t)), &obs); }
+    }
     for form in 0..3 {
         for f in formulas {
             let r = catch_unwind(AssertUnwindSafe(|| {
